@@ -5,6 +5,11 @@ V = os.path.dirname(os.path.dirname(os.path.abspath(__file__)))
 
 # id -> dict(level, engine, technique, text, note, design)
 CLAIMED = {
+ "C01": dict(level="exploration", engine="vsh-virtual",
+   technique="reference-model monitor: word AST -> expected fields (POSIX 2.6 model) vs the argument vector a probe built-in receives from the complete shell; read built-in vs a read-splitting model",
+   text="Words are generated from an AST and rendered to shell text, so the expected field list is known by construction. Exhaustive: all words of up to 2 (quick) / 3 units over a 46-unit alphabet x 96 states; read: all lines to length 5/7 over {a b space : backslash} x 5 IFS x 1-3 variables x -r. Random: 10^6 (quick) / 1.5*10^7 deeper words over 7 values x 6 positional lists x 7 IFS values x nounset. Every word runs in its own subshell so errors and ${x=w} side effects are contained.",
+   note="Trusted: models/expand.rs (validated against dash and bash at development time; disagreements triaged in DESIGN 5/C01 - constructs on which the three shells or the standard's text disagree are not generated and are listed in the evidence assumptions). set -f throughout (pathname expansion is C05).",
+   design="5/C01"),
  "C04": dict(level="exploration", engine="lib-inproc + vsh-virtual",
    technique="reference-model monitor: POSIX pattern parser + brute-force matcher vs yash_fnmatch (match, find, the four trims), then case/trim through the shell",
    text="Exhaustive token sequences to length 4 (bracket-inner forms as single tokens) x all strings to length 3 (quick) / 4 over a 10-character alphabet, exhaustive bracket bodies of up to 3/4 inner tokens (plain, complemented, with trailing *), seeded random long patterns with regex-special and non-ASCII characters, each checked for full match, literal-period match and shortest/longest prefix/suffix removal; shell level: case with multi-alternative items (ill-defined alternatives mixed in) and ${v#p} ${v##p} ${v%p} ${v%%p} with random quoting.",
